@@ -656,6 +656,15 @@ def explore(run, on_path=None, max_paths=4000):
             old = Namespace({k: ctx.clone_value(v) for k, v in args.items()})
             if C.requires is not None:
                 ctx.assume(C.requires(a))
+            if not getattr(run, "_vacuity_checked", False):
+                # vacuity guard: parameter invariants + precondition must be satisfiable (a contradictory precondition would make
+                # every obligation of the contract "proved"); decided on the quantifier-free part, unknown counts as satisfiable
+                run._vacuity_checked = True
+                if ctx._qf_unsat(z3.BoolVal(True)):
+                    raise CheckerError("vacuous contract: the precondition of %s is unsatisfiable in case %s" % (C.name, run.case_label()))
+                ob = run.obligation("vacuity", "precondition-satisfiable", getattr(fnode, "lineno", None))
+                ob.paths += 1
+                ob.backend["z3-qf"] = ob.backend.get("z3-qf", 0) + 1
             interp = Interp(ctx, mod, run.lib, run.contracts, target_contract=C, inline=C.inline)
             interp.self_qual = C.target if C.name == C.target else None
             interp.root_node = fnode
